@@ -156,6 +156,44 @@ def hook_audit(ctx):
     return bad
 
 
+def colrel_ops(events, n):
+    """the event log of one run as operations of ColRelease.v: SCHED of a panel -> Take (the columns that panel releases),
+    RELEASE c -> Final c; Release c (finality before the store is what hook_audit reads off the source), READ / WAIT_END of a
+    supernode -> Read of each of its columns"""
+    cols = {}
+    for ev, pnum, a, b, c in events:
+        if ev == EV_RELEASE:
+            cols.setdefault(b, []).append(a)
+    ops = []
+    for ev, pnum, a, b, c in events:
+        if ev == EV_SCHED and a >= 0:
+            ops.append("T " + " ".join(str(x) for x in cols.get(a, [])))
+        elif ev == EV_RELEASE:
+            ops.append("F %d" % a); ops.append("R %d" % a)
+        elif ev in (EV_READ, EV_WAIT_END) and 0 <= b <= c < n:
+            ops += ["D %d" % k for k in range(b, c + 1)]
+    return ops
+
+
+def colrel_replay(ctx, traces):
+    """traces: list of (case, ops).  Runs them through the extracted ColRelease.cstep; returns list of (case, message)"""
+    import subprocess
+    if not traces:
+        return []
+    exe = ctx.ocaml_model("colrel")
+    inp = "\n".join(";".join(ops) for _, ops in traces) + "\n"
+    out = subprocess.run([exe], input=inp, capture_output=True, text=True, timeout=600).stdout.split("\n")
+    bad = []
+    for (c, ops), l in zip(traces, out):
+        t = l.split()
+        if len(t) == 3 and t[0] == "OK" and t[2] == "1":
+            continue
+        k = int(t[1]) if len(t) >= 2 and t[0] == "FAIL" else -1
+        bad.append((c, "the event log is not an execution of the guarded column protocol (ColRelease.v): %s%s" % (
+            l.strip() or "no answer", (" at operation '%s'" % ops[k]) if 0 <= k < len(ops) else "")))
+    return bad
+
+
 def usepr_cases(ctx, cid0, N):
     """pivot rows handed back by the caller (usepr = YES, identity on a diagonally dominant band), several workers, narrow panels:
     the option under which the pivot step decides nothing -- and must still be finished before the column is released"""
@@ -320,6 +358,7 @@ def run(ctx):
     res = drv.run_grouped(exe, cs, par=max(1, vf.NCPU // 4), chunk=10)
     ntr, nbusy, nseq, nsnap, nretry = 0, 0, 0, 0, 0
     bdrv = ctx.ocaml_model("busy")
+    ctraces = []
     for c, r in zip(cs, res):
         bad = None
         if r.get("crash") is not None and "exceeded" in (r.get("stderr") or "") and "Storage for" in (r.get("stderr") or ""):
@@ -338,6 +377,8 @@ def run(ctx):
             nontriv = busy > 0 or sum(1 for e in ev if e[0] == EV_SCHED and e[2] >= 0) >= 2
             bad = monitor(ev, c["n"]) if r.get("hooks") else None
             if bad is None and r.get("hooks"):
+                ctraces.append((c, colrel_ops(ev, c["n"])))
+            if bad is None and r.get("hooks"):
                 bad, brk, k = busy_tie(bdrv, c, r)
                 nsnap += k
                 if brk:
@@ -350,6 +391,10 @@ def run(ctx):
         if bad:
             c2 = dict(c); r2 = {k: v for k, v in r.items() if k not in ("events", "L", "U")}
             ctx.violation("C03 trace monitor: " + bad, {"case": c2, "result": r2}, key={"kind": "trace", "what": bad.split(":")[-1][:30]})
+    for c, msg in colrel_replay(ctx, ctraces):
+        ctx.violation("C03 column protocol: " + msg, {"case": dict(c)}, key={"kind": "trace", "what": "colrel"})
+    ctx.cov["correspondence"]["traces_replayed_through_ColRelease_model"] = len(ctraces)
+    ctx.cov["correspondence"]["ColRelease_operations"] = sum(len(o) for _, o in ctraces)
     ctx.cov["traces_validated_against_impl"] = ntr
     ctx.cov["correspondence"]["threaded_traces"] = ntr
     ctx.cov["correspondence"]["busy_chain_reads_seen"] = nbusy
